@@ -392,4 +392,35 @@ theorem cancel_perm (w : Wheel) (c : Nat) (huniq : w.heap.Pairwise (fun a b => a
     · simp only [cancel, hm, hg, hec, if_false]
       exact List.Perm.refl _
 
+/-- `cancel` adds nothing to the heap -/
+theorem cancel_subset (w : Wheel) (c : Nat) (x : Entry) (hx : x ∈ (cancel w c).heap) : x ∈ w.heap := by
+  unfold cancel at hx
+  cases hm : minIdx w.heap with
+  | none => simpa [hm] using hx
+  | some i =>
+    simp only [hm] at hx
+    cases hg : w.heap[i]? with
+    | none => simpa [hg] using hx
+    | some e =>
+      simp only [hg] at hx
+      split at hx
+      · exact (List.eraseIdx_sublist _ _).subset hx
+      · exact (List.filter_sublist).subset hx
+
+/-- cancelling an arming never brings the next deadline forward -/
+theorem nextDeadline_cancel_ge (w : Wheel) (c : Nat) (d' : Int) (h : nextDeadline (cancel w c) = some d') :
+    ∃ d, nextDeadline w = some d ∧ d ≤ d' := by
+  obtain ⟨⟨e, he, hed⟩, _⟩ := nextDeadline_spec _ _ h
+  have hew := cancel_subset w c e he
+  cases hn : nextDeadline w with
+  | none => rw [(nextDeadline_none_iff w).mp hn] at hew; cases hew
+  | some d => exact ⟨d, rfl, hed ▸ (nextDeadline_spec w d hn).2 e hew⟩
+
+/-- after a poll at `now` (with enough fuel: the heap length) the next deadline, if any, lies strictly after `now` -/
+theorem nextDeadline_after_poll (w : Wheel) (now : Int) (d : Int)
+    (h : nextDeadline (popExpired w now w.heap.length).2 = some d) : now < d := by
+  obtain ⟨⟨e, he, hed⟩, _⟩ := nextDeadline_spec _ _ h
+  have := (popExpired_spec w now w.heap.length).2.2.2 (Nat.le_refl _) e he
+  omega
+
 end Verif.Inv.Wheel
